@@ -169,6 +169,15 @@ func checkMain(a []string) int {
 	}
 	defer os.RemoveAll(tmp)
 	replayDir := filepath.Join(verifDir, "replays")
+	if d := os.Getenv("ICESIM_REPLAY_DIR"); d != "" {
+		replayDir = d
+	}
+	// replay files of earlier runs of this check are stale
+	if old, _ := filepath.Glob(filepath.Join(replayDir, "*-by"+prop+"-*.json")); old != nil {
+		for _, f := range old {
+			os.Remove(f)
+		}
+	}
 
 	type job struct {
 		bin   string
